@@ -156,6 +156,10 @@ pub fn run(cfg: Cfg, out: &mut Out) {
                 r.value(&format!("{f}{a}{b}"), "matrix.index2");
                 r.filter(&format!("{f}{a}{b}"), "matrix.index2");
                 r.filter(&format!("all({f}{a}{b} <= 1.2.3.4)"), "matrix.index2");
+                // quantifier directly over an index path (argument typing by the VALUE it yields)
+                r.filter(&format!("any({f}{a}{b})"), "matrix.index2.quant");
+                r.filter(&format!("all({f}{a}{b}[0])"), "matrix.index3.quant");
+                r.filter(&format!("any({f}{a}{b}[*])"), "matrix.index3.quant");
             }
         }
     }
